@@ -187,7 +187,8 @@ def load_pairs():
 def pair_strategy(optimizer, enc):
     return strategies.run_spec(
         optimizer, task=strategies.task_spec(encodings=(enc,)),
-        config=strategies.config_spec(optimizer, max_cycles=(2, 6), perturb=0.0, pop_mults=(1,), stopping=False),
+        config=strategies.config_spec(optimizer, max_cycles=(2, 6), perturb=0.0, pop_mults=(1,), stopping=False,
+                                      pop_offsets=(0,)),
         modes=("serial",))
 
 
